@@ -120,7 +120,7 @@ class SimThreadState:
 class Sim:
     def __init__(self, decisions, line_mean=0, p_stall=0.0, stall_window=0.0,
                  sleep_jitter=0.0, trace_roots=(), max_steps=2_000_000,
-                 keep_log=False, jitter_rng=None):
+                 keep_log=False, jitter_rng=None, max_time=3600.0):
         global SIM
         SIM = self
         self.dec = decisions
@@ -140,6 +140,7 @@ class Sim:
         self.trace_roots = tuple(trace_roots)
         self._trace_cache = {}
         self.max_steps = max_steps
+        self.max_time = max_time
         self.steps = 0
         self.steps_no_progress = 0
         self.switches = 0
@@ -323,6 +324,10 @@ class Sim:
     def _fire_next_event(self):
         t, _, fn = heapq.heappop(self.heap)
         if t > self.now:
+            if t > self.max_time:
+                # the scenario's main thread did not finish within the virtual time budget
+                self._finish('timeout', self.describe_threads())
+                return
             self.now = t
             self.steps_no_progress = 0
         self.in_kernel = True
